@@ -125,8 +125,10 @@ def source_pool(rng):
 
 # ----------------------------------------------------------------------------- per-file oracle
 class Oracle:
-    """content bytes -> content-id; results of analyze_for_*(content, _, pattern) for the 30
-    patterns, obtained from the implementation on each content ALONE (vh_dir files)."""
+    """content bytes -> content-id; results of analyze_for_*(content, 0, pattern) for the 30
+    patterns, obtained from the implementation on each content ALONE (vh_dir files; file number 0
+    is what a file alone in a directory gets).  fileno_dependent: (cid, cat, pattern) for which
+    file numbers 7 or 1000 give another answer."""
 
     def __init__(self, hz):
         self.hz = hz
@@ -152,6 +154,9 @@ class Oracle:
             names[(cid + '.sol').encode()] = cid
         for l in self.hz.req('files ' + hx(d)):
             a = l.split(' ')
+            if a[0] == 'fileno':
+                self.fileno_dependent.append((names[unhx(a[1])], a[2], a[3]))
+                continue
             if a[0] != 'an':
                 raise vlib.BuildError('unexpected vh_dir output: ' + l)
             cid = names[unhx(a[1])]
@@ -159,10 +164,7 @@ class Oracle:
                 self.res[cid] = None
                 continue
             cat, pat = a[2], a[3]
-            if a[4] == 'FILENO-DEPENDENT':
-                self.fileno_dependent.append((cid, cat, pat))
-                self.res[cid][(cat, pat)] = 'PANIC'
-            elif a[4] == 'PANIC':
+            if a[4] == 'PANIC':
                 self.res[cid][(cat, pat)] = 'PANIC'
             else:
                 self.res[cid][(cat, pat)] = [int(x) for x in a[5:]]
